@@ -8,6 +8,7 @@
 -/
 import Yabgp.Lemmas.Compose
 import Yabgp.Props.C04
+import Yabgp.Props.C11b
 
 namespace Yabgp
 
